@@ -71,8 +71,26 @@ static struct child *child_by_pid(int pid)
 	return NULL;
 }
 
+/* see popen.c: the forking thread is held up right after fork() returned */
+static void fork_window_delay(void)
+{
+	static __thread uint64_t x;
+	struct timespec ts = { 0, 0 };
+	if (x == 0)
+		x = (uint64_t)(uintptr_t)&x | 1;
+	x ^= x << 13; x ^= x >> 7; x ^= x << 17;
+	if ((x >> 20) % 100 < 65)
+		return;
+	ts.tv_nsec = (x >> 30) % 100 < 85 ? 50000 + (long)((x >> 40) % 450000) : 4000000;
+	nanosleep(&ts, NULL);
+}
+
 void hk_fork(pid_t pid)
 {
+	if (pid > 0 && tl_spawning != NULL) {
+		tl_spawning->pid = pid;		/* (first of all: the reaper may see the pid during the delay) */
+		fork_window_delay();
+	}
 	if (pid > 0 && tl_spawning != NULL)
 		tl_spawning->pid = pid;		/* still inside the library's spawn call, before its lock is released */
 }
